@@ -997,7 +997,14 @@ impl Formatter {
     fn format_literal(&mut self, lit: &Literal) {
         match lit {
             Literal::Int(n) => self.writer.write(&n.to_string()),
-            Literal::Float(f) => self.writer.write(&f.to_string()),
+            Literal::Float(f) => {
+                // `Display` drops the fractional part of integral values (`1.0` -> `1`), which would re-parse as an int
+                let text = f.to_string();
+                self.writer.write(&text);
+                if f.is_finite() && !text.contains('.') {
+                    self.writer.write(".0");
+                }
+            }
             Literal::String(s) => {
                 self.writer.write("\"");
                 self.writer.write(&escape_string(s));
